@@ -206,6 +206,7 @@ Proof.
       split; [eapply pres_trans; [exact Hp | exact Hp2] | exact Hg2].
   - (* signal *)
     unfold do_signal. destruct (nth_error (cells w) c) as [x |]; [| exact TRIV].
+    destruct (cell_err x); [exact TRIV |].
     destruct (cell_signal x) as [x' ws]. cbv iota beta. destruct (set_cell_ok c x' w G) as [Hp Hg].
     destruct (sched_all_ok ws _ Hg) as [Hp2 Hg2].
     split; [eapply pres_trans; [exact Hp | exact Hp2] | exact Hg2].
@@ -277,7 +278,8 @@ Proof.
         -- simpl. split; assumption.
     + destruct k; [| apply KEEP; [apply pres_refl | exact G]].
       unfold do_wait. destruct (nth_error (cells w) c) as [cx |]; [| simpl; split; [apply pres_refl | exact G]].
-      rewrite C. destruct (cell_test cx); [simpl; split; [apply pres_refl | exact G] |].
+      rewrite C. destruct (cell_err cx); [simpl; split; [apply pres_refl | exact G] |].
+      destruct (cell_test cx); [simpl; split; [apply pres_refl | exact G] |].
       destruct (tplayer (S (length (rts w))) w self) as [p |]; [| simpl; split; [apply pres_refl | exact G]].
       destruct (cell_wait p cx) as [cx' v]. simpl. apply set_cell_ok; exact G.
     + destruct (nth_error (cells w) c) as [cx |].
@@ -504,7 +506,7 @@ Proof.
     destruct (next_ok fuel r VAwake w1 (proj1 Q1)) as (A & B & _).
     destruct (next_ cfg defs fuel r VAwake w1) as [w2 o]. simpl in A, B.
     pose proof (pres_quiescent w1 w2 Q1 A B) as Q2.
-    destruct o as [[| d | | | |] | e]; exact Q2.
+    destruct o as [[| d | | | | | d | | |] | e]; exact Q2.
 Qed.
 
 Lemma init_quiescent : forall cs, quiescent (init_world defs cs).
